@@ -594,6 +594,25 @@ def std_conv_date(y: int, mo: int, d: int, off: int) -> bool:
                   and off_ok and tuple(back) == (y, mo, d, o) and tuple(back2) == (y, mo, d, None))
 
 
+_FRACS = [0, 1, 999, 1000, 1001, 499999, 500000, 999999, 1000000, 123456789, 999999499, 999999500, 999999999]
+
+
+def std_conv_frac(i: int) -> bool:
+    """
+    pre: 0 <= i < len(_FRACS)
+    post: _
+    """
+    # sub-microsecond digits cannot be represented by datetime: the conversion must still succeed and keep the whole microseconds
+    from harness.common import concretize, untraced
+
+    ci = concretize(i, len(_FRACS))
+    with untraced():
+        fs = _FRACS[ci]
+        t = XmlTime(23, 59, 59, fs).to_time()
+        dt = XmlDateTime(2021, 12, 31, 23, 59, 59, fs, 60).to_datetime()
+        return result(t.microsecond == fs // 1000 and dt.microsecond == fs // 1000 and (t.hour, t.minute, t.second) == (23, 59, 59) and dt.day == 31)
+
+
 _AW_DATES = [(1, 1, 1), (1970, 1, 1), (2024, 2, 29), (9999, 12, 31), (1900, 2, 28)]
 _AW_TIMES = [(0, 0, 0, 0), (23, 59, 59, 999999), (12, 30, 15, 1000), (0, 0, 0, 1)]
 _AW_OFFS = [0, 1, -1, 60, 345, -330, 840, -840, 839]
@@ -988,6 +1007,7 @@ def plan(tier):
     jobs.append(Job("std_conv_datetime", {"off": ""}, T, 30, note="naive values: all components symbolic"))
     jobs.append(Job("std_conv_time", {"off": ""}, T, 30, note="naive values: all components symbolic"))
     jobs.append(Job("std_conv_date", {"off": ""}, T, 30, note="naive values: all components symbolic"))
+    jobs.append(Job("std_conv_frac", {}, T, 30, note="selector driven: sub-microsecond fractions"))
     for i in range(len(_AW_DATES) if not quick else 3):
         jobs.append(Job("std_conv_aware", {"i": i, "nj": 2 if quick else 4, "nk": 6 if quick else 9}, T, 30, note="offset-aware values: selector-driven enumeration of a concrete pool (C timezone realises symbolic datetimes)"))
     # --- engine B
